@@ -19,6 +19,24 @@ Theorem C19_history_independent_partial : forall c hist,
 Proof. exact history_independent_partial. Qed.
 Print Assumptions C19_history_independent_partial.
 
+(** the guard in the words of the property text: all enable heights 0, the
+    pubkey conversions on one side of the formatting fork, no address rejected
+    by two drivers with different errors *)
+Theorem C19_default_config_exact : forall c side hist,
+  all_zero c = true -> fmt_side_b c side (map fst hist) = true ->
+  all_unambiguous c (map fst hist) = true -> perms_ok c hist ->
+  run c st0 hist = map (spec_answer c) (map fst hist).
+Proof. exact default_config_exact. Qed.
+Print Assumptions C19_default_config_exact.
+
+Theorem C19_default_guard_satisfiable :
+  all_zero cfg_fmtfork = true
+  /\ fmt_side_b cfg_fmtfork true default_ops = true
+  /\ all_unambiguous cfg_fmtfork default_ops = true
+  /\ c_ffmt cfg_fmtfork = 15.
+Proof. exact default_guard_satisfiable. Qed.
+Print Assumptions C19_default_guard_satisfiable.
+
 Theorem C19_validity_history_independent_partial : forall c hist,
   perms_ok c hist -> vguard_b c (map fst hist) = true ->
   Forall2 (valid_agree c) (map fst hist) (run c st0 hist).
@@ -46,10 +64,10 @@ Proof.
 Qed.
 Print Assumptions C19_possible_results_exact.
 
-Theorem C19_spec_is_registration_order : forall c a h,
-  spec_under c a h = miss_result c (c_drv c) a h.
+Theorem C19_spec_is_descending_id_order : forall c a h,
+  spec_under c a h = miss_result c (rev (c_drv c)) a h.
 Proof. exact spec_under_canonical. Qed.
-Print Assumptions C19_spec_is_registration_order.
+Print Assumptions C19_spec_is_descending_id_order.
 
 Theorem C19_cache_capacity_kept : forall (cap k : N) (v : err) (l : lru err),
   (1 <= cap)%N -> (N.of_nat (length l) <= cap)%N ->
